@@ -12,7 +12,7 @@ import vp_coq
 
 U = Fraction(1, 2 ** 24)
 OPS = {0: "updateXProjection", 1: "updateYProjection", 2: "integrate", 3: "normalize",
-       4: "average(0)", 5: "average(1)", 6: "variance(0)", 7: "variance(1)"}
+       4: "average(0)", 5: "average(1)", 6: "variance(0)", 7: "variance(1)", 8: "integrateAndNormalize"}
 STATES = ("s", "c", "cv", "t", "tv")
 TAGS = ("data", "px", "py", "fill", "int", "m00", "m01", "m10", "m11")
 
@@ -210,6 +210,10 @@ HISTORIES = {
     "double": [3, 3, 0, 1, 2, 6, 7],       # second normalize reads the cached (stale) filling
     "avg-only": [4, 5],
     "share-x": [3, 0, 2, 6],               # as the main loop does: x projection and integral only
+    # the main loop's renormalisation (RenormalizeCharge > 0): updateXProjection(); integrateAndNormalize() -
+    # the second round starts from caches that are stale after the first normalisation
+    "loop-renorm": [0, 8, 0, 8, 0, 2, 6],
+    "loop-renorm-stale": [3, 0, 8, 0, 1, 2, 6, 7],
 }
 
 
@@ -243,7 +247,7 @@ def gen_case(rng, cid, stream, sizes=None, force=None):
         elif hname == "random":
             # cache operations in any order, then the moment calls (so that the dumped moments belong
             # to the dumped arrays and the tolerance can be computed from them)
-            ops = [rng.randint(0, 3) for _ in range(rng.randint(1, 5))] + \
+            ops = [rng.choice([0, 1, 2, 3, 8]) for _ in range(rng.randint(1, 5))] + \
                   [rng.randint(4, 7) for _ in range(rng.randint(0, 3))]
         else:
             ops = HISTORIES[hname]
@@ -336,6 +340,9 @@ class Budget:
             x["fill"] = x["px"]; x["int"] = x["px"]
         elif o == 3:
             e["data"] = e["data"] + e["fill"] + 2; x["data"] = False
+        elif o == 8:
+            self.op(2)
+            self.op(3)
 
     def copy_constructed(self):
         b = Budget(self.n, self.nb, False)
